@@ -1354,4 +1354,14 @@ theorem first_failure_not_longest_nonmonotone :
     fits cfg cost conv 0 = true ∧ fits cfg cost conv 1 = false ∧ fits cfg cost conv 2 = true := by
   decide
 
+
+/-- **F5 repaired** (`proposed_fixes/C19-F5-literal-image-tag.patch`: every incoming content goes through
+    `strings.ReplaceAll(content, "[img-", "[img -")` before anything else): on the two witnesses the runner finds the
+    single image's tag exactly once, resp. no tag at all; text without `[img-` is untouched. -/
+theorem F5_repaired_witnesses :
+    scanOf (chatPromptT ⟨true, false, 2, 2048⟩ ⟨2, true⟩ tInPlace 0 [⟨.user, splitImg (sanitizeBytes bSeeTag0), [⟨1, true⟩]⟩]) = [0] ∧
+    scanOf (chatPromptT ⟨true, false, 2, 2048⟩ ⟨2, true⟩ tInPlace 0 [⟨.user, splitImg (sanitizeBytes bTag5), []⟩]) = [] ∧
+    cleanPieces (splitImg (sanitizeBytes bSeeTag0)) = true ∧ cleanPieces (splitImg (sanitizeBytes bTag5)) = true ∧
+    sanitizeBytes bLong = bLong ∧ sanitizeBytes bImg = bImg := by decide
+
 end OllamaVerif.C19
